@@ -63,6 +63,8 @@ class Ctx:
             cmd.append("-Xmx" + heap)
         if env and env.get("_DFS"):
             cmd.append("-Dtlc2.tool.queue.IStateQueue=StateDeque")
+        if "-seed" not in extra:
+            extra = list(extra) + ["-seed", str(self.seed)]      # RandomSubset / simulation follow VERIF_SEED
         cmd += ["-cp", TLA_CP, "tlc2.TLC", "-workers", str(workers), "-metadir", md,
                 "-config", cfg] + list(extra) + [module]
         e = dict(os.environ)
